@@ -64,7 +64,8 @@ def observe_file(name, text, reg=None):
     except Exception as e:  # noqa: BLE001
         return ("exc", type(e).__name__, str(e)[:120])
     try:
-        obs = ("diags", tuple(impl.diag_tuple(e) for e in f.errors), f.errors.status)
+        # (the message text is part of a diagnostic: a catalogue entry rewritten by an earlier file shows here)
+        obs = ("diags", tuple(impl.diag_tuple(e) + (e.text,) for e in f.errors), f.errors.status)
     except Exception as e:  # noqa: BLE001
         return ("exc", type(e).__name__, str(e)[:120])
     # the report of the run so far, in both formats: what it says about *this* file (last entry) is part of the
